@@ -194,7 +194,7 @@ func init() {
 		} else if tier == "search" {
 			maxN, rounds = 30, 8000
 		}
-		db := c15Open()
+		db, rec := c15Open()
 		var cases []c15Case
 		var ops [][]interface{}
 		for i := 0; i < rounds && !expired(); i++ {
@@ -212,7 +212,7 @@ func init() {
 			c15Fill(db, rows)
 			for k := 0; k < 6; k++ {
 				c := c15Case{Rows: rows, Calls: genLimCalls(rng, 4, false), Batch: 1 + rng.Intn(maxN/2+2)}
-				c15Run(db, &c)
+				c15Run(db, rec, &c)
 				cases = append(cases, c)
 				ops = append(ops, []interface{}{"batches", rows, callsJ(c.Calls), c.Batch})
 			}
@@ -242,7 +242,7 @@ func init() {
 			_ = json.Unmarshal(outs[i], &m)
 			if c.real != nil && canon(c.real) != canon(m) {
 				r.Violate(Violation{Kind: "correspondence", Suite: "batches", Input: in, Observed: c.real, Expected: m,
-					Note: "real DB.FindInBatches/Find on SQLite vs Lean Gorm.findInBatches/findAll"})
+					Note: "real DB.FindInBatches/Find on SQLite (batches, RowsAffected, sequence of issued queries: limit/offset/cursor) vs Lean Gorm.findInBatches/findAll"})
 			}
 		}
 	})
@@ -260,9 +260,9 @@ func init() {
 		for _, x := range in.Calls {
 			c.Calls = append(c.Calls, limCall{x[0].(string), int(x[1].(float64))})
 		}
-		db := c15Open()
+		db, rec := c15Open()
 		c15Fill(db, c.Rows)
-		c15Run(db, &c)
+		c15Run(db, rec, &c)
 		r.Case("batches", canon(c.input()), true)
 		if c.e2e != "" {
 			r.Violate(Violation{Kind: "e2e", Suite: "batches", Input: c.input(), Observed: c.real, Expected: c.e2e})
@@ -282,12 +282,17 @@ func (c *c15Case) input() map[string]interface{} {
 	return map[string]interface{}{"rows": c.Rows, "calls": callsJ(c.Calls), "batch": c.Batch}
 }
 
-func c15Open() *gorm.DB {
-	db, _, _ := OpenRec(nil)
+func c15Open() (*gorm.DB, *Recorder) {
+	db, rec, _ := OpenRec(nil)
 	if err := db.AutoMigrate(&C15Item{}); err != nil {
 		panic(err)
 	}
-	return db
+	return db, rec
+}
+
+// c15Triple = [limit, offset|nil, cursor|nil] of one recorded SELECT of the batch loop
+func c15Triple(ev Event) []interface{} {
+	return []interface{}{c15SQLValue(ev, c15ReLimit), c15SQLValue(ev, c15ReOffset), c15SQLValue(ev, c15ReCursor)}
 }
 
 func c15Fill(db *gorm.DB, rows []int) {
@@ -306,13 +311,20 @@ func c15Fill(db *gorm.DB, rows []int) {
 // c15Run executes FindInBatches and Find on the real code and judges the end-to-end oracle
 // (no model involved): concatenation of the batches = Find's rows, each batch non-empty and no larger
 // than requested, keys strictly increasing, RowsAffected = rows delivered.
-func c15Run(db *gorm.DB, c *c15Case) {
+func c15Run(db *gorm.DB, rec *Recorder, c *c15Case) {
 	got := [][]int{}
 	var dest []C15Item
+	rec.Reset()
 	res := applyLimCalls(db.Model(&C15Item{}), c.Calls).FindInBatches(&dest, c.Batch, func(tx *gorm.DB, b int) error {
 		got = append(got, idsOf(dest))
 		return nil
 	})
+	queries := []interface{}{}
+	for _, ev := range rec.Snapshot() {
+		if ev.Kind == "query" {
+			queries = append(queries, c15Triple(ev))
+		}
+	}
 	var all []C15Item
 	res2 := applyLimCalls(db.Model(&C15Item{}), c.Calls).Order("id").Find(&all)
 	if res.Error != nil || res2.Error != nil {
@@ -320,7 +332,7 @@ func c15Run(db *gorm.DB, c *c15Case) {
 		return
 	}
 	find := idsOf(all)
-	c.real = map[string]interface{}{"batches": got, "find": find, "fuel": false, "pk": false}
+	c.real = map[string]interface{}{"batches": got, "find": find, "fuel": false, "pk": false, "queries": queries, "ra": res.RowsAffected}
 	flat := []int{}
 	for _, b := range got {
 		if len(b) == 0 || len(b) > c.Batch {
